@@ -608,6 +608,10 @@ def containers : List Row :=
   -- `Region::declare_alias(n, t)` aliases the type t: the alias's type is the type of t, i.e. `typename` for every compound type
   declMakers "Region" regionFns ["Region"] (.const .k_typename) ++
   declMakers "Scope" scopeFns ["Scope"] (.via 2 .h_type) ++
+  -- declaration specifiers assigned twice after the declaration was made: the declaration reports the set assigned last (operand 4)
+  (declMakers "Scope" scopeFns ["Scope"] (.via 2 .h_type)).map (fun r =>
+    { r with key := r.key ++ "#specifiers-set-twice", sorts := r.sorts ++ ["Specifiers", "Specifiers"],
+             acc := r.acc.map fun (a, s) => if a == "specifiers" then (a, Src.arg 4) else (a, s) }) ++
   -- a redeclaration (second entry of the same name and type in one scope) joins the declaration set of the first declaration,
   -- which stays the master; everything else reads as for a first declaration (interface 1765-1770; src/impl.cxx `redeclare` paths)
   redeclMakers ++
